@@ -113,7 +113,7 @@ package kv
 //@   ensures  ok ==> (forall i int :: 0 <= i && i < len(out.Operations) ==> out.Operations[i].Version > version.Counter(old(xkv.SpecCounterVal[va.counter])) && out.Operations[i].Version <= version.Counter(xkv.SpecCounterVal[va.counter]))
 //@   modifies xkv.SpecCounterVal
 //@   loop 0 invariant len(br.Operations) == old(len(br.Operations))
-//@   loop 0 invariant forall j int :: 0 <= j && j < i ==> br.Operations[j].Version == version.Counter(latestVer + int64(j) + 1)
+//@   loop 0 invariant forall j int :: 0 <= j && j < i ==> br.Operations[j].Version == version.Counter(old(xkv.SpecCounterVal[va.counter]) + int64(j) + 1)
 //@   loop 0 invariant forall j int :: 0 <= j && j < len(br.Operations) ==> br.Operations[j].Leaseholder == old(br.Operations[j].Leaseholder) && __eq(br.Operations[j].Change, old(br.Operations[j].Change))
 
 //@ # a stored lease is never changed: an operation on an existing key keeps the stored
